@@ -19,7 +19,8 @@ func rulesC02(c *Ctx) {
 		"R2.3 canResolve: next-hops always resolvable after the zero-index test; a group needs every member present in its own network instance (only-fail-inside the member loop); IPv4/IPv6/MPLS entries need their group in the named, else their own, network instance; unknown instance is an error; backup groups are never consulted",
 		"R2.4 addEntryInternal: after every install the operation leaves the pending set and all held operations are retried with the same accumulators and install stack; an unresolved operation is held when forward references are allowed and FAILED otherwise")
 	c.NotDec = append(c.NotDec, "the cascade on concrete dependency graphs (completeness follows by induction from R2.4's premises; the induction is in DESIGN.md, not mechanised)", "DisableRIBCheckFn configurations", "effects of Go map iteration order")
-	ribFamily(c, famSel{gate: true, replacedOrig: true})
+	ribFamily(c, famSel{gate: true, replacedOrig: true, heldOnly: true})
+	rulePendingWriters(c) // a held operation leaves the pending set only with a verdict (shared with C06)
 	ruleCheckWiring(c)
 	ruleCheckFnTable(c)
 	ruleCanResolve(c)
@@ -56,6 +57,14 @@ func holderOptionAppends(c *Ctx, fi *FuncInfo) ([]optAppend, *ast.CallExpr) {
 	if len(newCall.Args) >= 2 {
 		optVar = objOfIdent(info, newCall.Args[len(newCall.Args)-1])
 	}
+	optVars := map[types.Object]bool{}
+	if optVar != nil {
+		optVars[optVar] = true
+		// the option list built by a helper that was spliced in: its local stands for the argument
+		for _, a := range frameReturnAliases(info, optVar) {
+			optVars[a] = true
+		}
+	}
 	var out []optAppend
 	var walk func(n ast.Node, guard ast.Expr)
 	walk = func(n ast.Node, guard ast.Expr) {
@@ -75,7 +84,7 @@ func holderOptionAppends(c *Ctx, fi *FuncInfo) ([]optAppend, *ast.CallExpr) {
 			}
 			return
 		case *ast.AssignStmt:
-			if o, args := appendTarget(info, x); o != nil && o == optVar {
+			if o, args := appendTarget(info, x); o != nil && optVars[o] {
 				for _, a := range args {
 					if call, ok := ast.Unparen(a).(*ast.CallExpr); ok {
 						if f, ok := calleeObj(info, call).(*types.Func); ok {
@@ -253,6 +262,11 @@ func checkConfigMirrors(c *Ctx, rule string, fi *FuncInfo, a optAppend) {
 		rhs := ast.Unparen(as.Rhs[0])
 		// r.f = <guard variable>
 		if types.ExprString(rhs) == types.ExprString(cguard) {
+			ok = true
+		}
+		// the constructor's guard reads the field itself (stored before the holder is created): both sites
+		// consult the same configuration
+		if gse, isG := ast.Unparen(cguard).(*ast.SelectorExpr); isG && cinfo.ObjectOf(gse.Sel) == fld && as.Pos() < cnode.Pos() {
 			ok = true
 		}
 		// r.f = true inside the guarded block
